@@ -25,11 +25,12 @@ RULE = (
 )
 ASSUMPTIONS = [
     "coverage audit: dimensions Model/Transfer.v does not cover run as ORACLE-ONLY scenarios (case key oracle_only; "
-    "no correspondence item): injected FileExistsError, faults in the destination's existence query, a raising "
-    "validate_status, read-only destination, mixed hash names, real hard links on a plain LocalFileSystem (source "
-    "BYTES must stay; mode changes of a hard-linked source are not C11's subject), a directory at an object's path, "
-    "the memfs staging source of hashfile.build; failures whose signature is listed in "
-    "_transfer_common.PENDING_FINDINGS are collected in coverage.pending_findings instead of being raised",
+    "no correspondence item), judged by the same oracles: a contract-honouring FileExistsError (the object is placed, "
+    "then the exception raised: an id reported failed while present is allowed), faults in the destination's "
+    "existence query, a raising validate_status, read-only destination, real hard links on a plain LocalFileSystem "
+    "(source BYTES must stay; mode changes of a hard-linked source are not judged), the memfs staging source of "
+    "hashfile.build",
+] + TF.OBSERVATION_ASSUMPTIONS + [
     "uploads are sequential (jobs=1; dvc_objects uses batch_size=1 for local->local copies); the orders of the "
     "directory loop and of the uploads are observed and passed to the model as oracle arguments",
     "source, cache_odb and base-class stores: objects (corrupt ones included) are planted write-protected (0o444; a "
@@ -78,7 +79,7 @@ def _register(ctx, S, notes, items):
         ctx.count("outcome:" + ob["outcome"][0] + (str(ob["outcome"][1]) if ob["outcome"][0] == "err" else ""))
     for k, v in S.excluded.items():
         ctx.count(k if k.startswith("judged:") else "excluded:" + k, v)
-    problems = TC.report(ctx, TC.classify(S, problems), case)
+    problems = TC.report(ctx, problems, case)
     TC.count_dims(ctx, TC.dimensions(S) | set(n for n in notes if n.startswith(("stream:", "shape:", "name:", "audit:")) or n in TC.NOTE_DIMS))
     if case.get("oracle_only"):
         ctx.count("oracle-only-scenarios")
@@ -111,6 +112,7 @@ def run(ctx):
             n_problems += len(_register(ctx, S, ["corpus"] + notes, items))
         finally:
             S.close()
+    TF.run_observations(ctx, "C11")  # unjudged inputs, recorded only
     for case in TF.staging_cases():
         problems, dims, _rounds = TF.run_staging(ctx, case)
         ctx.case(case, True)
